@@ -9,6 +9,8 @@ levels and every well-formed family of index sets / tensor-product prolongations
 import Pyiga.Proofs.Boehm
 import Pyiga.Proofs.Transfer
 import Pyiga.Proofs.ProlongateTo
+import Pyiga.Proofs.TransferRows
+import Pyiga.Proofs.TransferBoundary
 import Mathlib.LinearAlgebra.Lagrange
 
 namespace Pyiga.Props.C05
@@ -142,6 +144,39 @@ theorem prolongate_to_spec (C F : HSp K) (nest : Nested C F) :
         (C.representFine (C.numlevels - 1) false none false)) :=
   Pyiga.Transfer.prolongate_to_spec C F nest
 
+/-- the repaired loop does not read the disparity, and for `disparity = ∞` the bounds of the earlier
+source coincide with it: `prolongate_to` under `disparity = np.inf` was always the repaired loop -/
+theorem prolongate_to_disparity_irrelevant (C F : HSp K) (d : Option Nat) :
+    prolongateTo C F d false = prolongateTo C F none false ∧
+    prolongateTo C F none true = prolongateTo C F none false := ⟨rfl, rfl⟩
+
+/-- hence **`prolongate_to` preserves the function for `disparity = ∞`** also with the loop bounds
+as they were before 6ce171d (special case of `prolongate_to_spec`), and for every disparity now. -/
+theorem prolongate_to_inf (C F : HSp K) (nest : Nested C F) (d : Option Nat) :
+    Mat.Eqv ((F.representFine (F.numlevels - 1) false none false).mul (prolongateTo C F none true))
+      ((F.tprodN (F.numlevels - C.numlevels) (C.numlevels - 1)).mul
+        (C.representFine (C.numlevels - 1) false none false)) ∧
+    Mat.Eqv ((F.representFine (F.numlevels - 1) false none false).mul (prolongateTo C F d false))
+      ((F.tprodN (F.numlevels - C.numlevels) (C.numlevels - 1)).mul
+        (C.representFine (C.numlevels - 1) false none false)) :=
+  ⟨Pyiga.Transfer.prolongate_to_spec C F nest, Pyiga.Transfer.prolongate_to_spec C F nest⟩
+
+/-- **`rows=` / `restrict=` variants of `represent_fine`** (any `truncate`): with `restrict=False` the
+given rows of the full matrix are kept and all others are zero; with `restrict=True` the result is
+the row selection `I[rows, :]` — for every list of rows (duplicates allowed in the first case). -/
+theorem represent_fine_rows (H : HSp K) (lv : Nat) (trunc : Bool) (rows : List Nat) :
+    Mat.Eqv (H.representFine lv trunc (some rows) false) ((H.representFine lv trunc none false).keepRows rows) ∧
+    ((∀ r ∈ rows, r < H.Nl lv) →
+      Mat.Eqv (H.representFine lv trunc (some rows) true) ((H.representFine lv trunc none false).selRows rows)) :=
+  ⟨HSp.representFine_rows_keep_eqv H lv trunc rows, fun h => HSp.representFine_rows_restrict_eqv H lv trunc rows h⟩
+
+/-- entry form of the same statement for the HB matrix -/
+theorem represent_fine_rows_entries (H : HSp K) (lv : Nat) (rows : List Nat) :
+    ∀ i j, i < H.Nl lv → j < (H.representFine lv false none false).n →
+      (H.representFine lv false (some rows) false).f i j
+        = if i ∈ rows then (H.representFine lv false none false).f i j else 0 :=
+  (HSp.representFine_rows_keep H lv rows).2.2
+
 /-- the same identity with the loop bounds `min(f_numlevels, · + disparity + 1)` of the source
 before 6ce171d (`asCoded_D13 = true`) — **false under finite disparity** (defect D13, repaired):
 see `prolongate_to_finite_disparity_wrong`. -/
@@ -154,6 +189,60 @@ def prolongate_to_identity_asCoded_D13 (C F : HSp Rat) (d : Option Nat) : Prop :
 example : Nested exC exF := ex_nested
 
 end Hier
+
+
+/-! ## restriction to a boundary face -/
+
+/-- **`HSpace.boundary(bdspec)`: the index bookkeeping is an order-preserving bijection**, for every
+number of levels, every dimension and every face.  With sorted per-level active lists `IA`:
+the returned index array `bdMap` is strictly increasing (canonical order is preserved) and has as many
+entries as the boundary space has dofs; every level's boundary index list (`faceIndices`: the
+functions whose component on `axis` is the end index, with that component dropped) is strictly
+increasing, so its order *is* the raveled order of the boundary space; position `bdOffsetAt l + t` of
+the array — the `t`-th dof of level `l` of the boundary space, uniquely determined by the position —
+holds the canonical index `offsetAt l + q` of a parent active function on the face whose face index is
+that dof's tensor-product index; every parent active function on the face is hit exactly once and
+nothing else is hit. -/
+theorem boundary_map (IA dims : List (List Nat)) (axis side : Nat)
+    (hsorted : ∀ ia ∈ IA, ia.Pairwise (· < ·)) :
+    (bdMap IA dims axis side).Pairwise (· < ·) ∧
+    (bdMap IA dims axis side).length = (bdLens IA dims axis side).sum ∧
+    (∀ l (hl : l < IA.length) (hd : l < dims.length),
+      (faceIndices dims[l] axis side IA[l]).Pairwise (· < ·)) ∧
+    (∀ k, k < (bdMap IA dims axis side).length →
+      ∃ l t, ∃ (hl : l < IA.length) (hd : l < dims.length),
+        t < (faceIndices dims[l] axis side IA[l]).length ∧
+        k = bdOffsetAt IA dims axis side l + t) ∧
+    (∀ l l' t t' (hl : l < IA.length) (hd : l < dims.length) (hl' : l' < IA.length)
+      (hd' : l' < dims.length), t < (faceIndices dims[l] axis side IA[l]).length →
+      t' < (faceIndices dims[l'] axis side IA[l']).length →
+      bdOffsetAt IA dims axis side l + t = bdOffsetAt IA dims axis side l' + t' → l = l' ∧ t = t') ∧
+    (∀ l t (hl : l < IA.length) (hd : l < dims.length),
+      t < (faceIndices dims[l] axis side IA[l]).length →
+      ∃ q, ∃ hq : q < IA[l].length,
+        (bdMap IA dims axis side)[bdOffsetAt IA dims axis side l + t]? = some (offsetAt IA l + q) ∧
+        onFace dims[l] axis side IA[l][q] = true ∧
+        (faceIndices dims[l] axis side IA[l])[t]? = some (faceIndex dims[l] axis IA[l][q])) ∧
+    (∀ l q (hl : l < IA.length) (hd : l < dims.length) (hq : q < IA[l].length),
+      onFace dims[l] axis side IA[l][q] = true →
+      (bdMap IA dims axis side).count (offsetAt IA l + q) = 1) ∧
+    (∀ x ∈ bdMap IA dims axis side,
+      ∃ l q, ∃ (hl : l < IA.length) (hd : l < dims.length) (hq : q < IA[l].length),
+        onFace dims[l] axis side IA[l][q] = true ∧ x = offsetAt IA l + q) :=
+  bdMap_bijection IA dims axis side hsorted
+
+/-- on one face the map "drop the `axis` component" is strictly monotone and injective in the raveled
+index, and onto the face's tensor-product space (`faceLift` is its inverse) — the reason why the
+boundary space's canonical order is the parent's -/
+theorem face_index_order (d : List Nat) (axis side : Nat) :
+    (∀ r r', axisDigit d axis r = axisDigit d axis r' →
+      (r < r' ↔ faceIndex d axis r < faceIndex d axis r')) ∧
+    (0 < strideOf d axis → 0 < axisSize d axis → ∀ t,
+      faceIndex d axis (faceLift d axis side t) = t ∧ onFace d axis side (faceLift d axis side t) = true) :=
+  ⟨fun r r' h => faceIndex_lt_iff d axis r r' h,
+   fun hs hn t => ⟨faceIndex_faceLift d axis side t hs hn, onFace_faceLift d axis side t hs hn⟩⟩
+
+example : bdMap [[0, 1, 5, 8, 10, 11]] [[3, 4]] 0 1 = [3, 4, 5] := by decide
 
 /-! ## witnesses of the two known defects (exact dyadic prolongations, 1-D, p = 2) -/
 
